@@ -209,7 +209,7 @@ let predict (c : string) (obs : string) : string * string * bool =
           Printf.sprintf "%d:%s%s%s%s" (int_of_nat k) (match s.s_dec with Fire -> "F" | Discard -> "D")
             (bit (zle s.s_tok s.s_entry)) (bit (zle max_overdue (zsub s.s_pickup s.s_tok)))
             (bit (zle max_overdue (zsub s.s_entry s.s_tok)))) shots
-        @ [ Printf.sprintf "R=%d" nd; "X=0"; Printf.sprintf "S=%d" (int_of_nat (schedules_built p (nat_of_int n))) ] in
+        @ [ Printf.sprintf "R=%d" nd; "X=0"; Printf.sprintf "S=%d" (int_of_nat (schedules_built p (nat_of_int n))); "E=1" ] in
       (* the verdict: the specification on the observation *)
       let is_tok f = (match String.index_opt f ':' with
         | Some i -> String.length f = i + 5 && (try ignore (int_of_string (String.sub f 0 i)); true with _ -> false)
@@ -237,6 +237,7 @@ let predict (c : string) (obs : string) : string * string * bool =
         | Some bad -> bad ^ (if perinst then "(own-schedules)" else "(shared-schedule)")
         | None ->
           if get "X" <> 0 || get "R" <> nobs_d then "BAD:pool:discarded-token-not-reported-as-777-discarded"
+          else if get "E" <> 1 then "BAD:pool:run-longer-than-profile+2s+one-response-time"
           else if get "S" <> int_of_nat (schedules_built p (nat_of_int n)) then "BAD:pool:schedules-built-differ-from-rps-per-instance"
           else if (perinst && (List.exists (fun k -> count_inst k <> ntok) (List.init n (fun k -> k)) || List.length toks_obs <> n * ntok))
                   || ((not perinst) && List.length toks_obs <> ntok) then
